@@ -3,6 +3,12 @@ import Ogorek.Decoder
 /-! Number formats: decimal text, fixed-width little endian, two's complement. -/
 namespace Ogorek
 
+theorem inInt64_iff (i : Int) : inInt64 i = true ↔ -9223372036854775808 ≤ i ∧ i ≤ 9223372036854775807 := by
+  unfold inInt64
+  rw [Bool.and_eq_true, decide_eq_true_eq, decide_eq_true_eq]
+  unfold minInt64 maxInt64
+  constructor <;> intro h <;> constructor <;> omega
+
 theorem digitByte_toNat (n : Nat) : (digitByte n).toNat = 48 + n % 10 := by
   unfold digitByte
   have : 48 + n % 10 < 256 := by omega
